@@ -30,7 +30,7 @@ COMPONENTS = {'real': ['kawin.diffusion.Diffusion.DiffusionModel', 'kawin.diffus
 
 def plan(tier):
     if tier == 'quick':
-        return dict(runs=400, batch=4, hard_timeout=900, soft_timeout=300)
+        return dict(runs=800, batch=4, hard_timeout=900, soft_timeout=300)
     return dict(runs=20000, batch=10, hard_timeout=2400, soft_timeout=600)
 
 
